@@ -502,6 +502,9 @@ for kind in ('http', 'socks5'):
     up = upstream_of(kind)[0]
     if not probe(kind):
         machinery(f'{kind} connector does not work before the black-hole scenario')
+    st_r, rules_before = px.api('GET', '/rules')
+    if st_r != 200:
+        machinery(f'GET /api/rules -> {st_r}')
     up.stop()
     hole, fillers, dropping = blackhole(up.port)
     if not dropping:
@@ -523,7 +526,17 @@ for kind in ('http', 'socks5'):
     t0 = time.time()
     worst_ctl = worst_new = 0.0
     bad = []
+    posted = None
     while time.time() - t0 < 4.0:
+        if posted is None and time.time() - t0 > 1.0:
+            # the operator's move during an outage: the rule list is posted (here: unchanged) while requests hang on
+            # the silent upstream - answered promptly, and everything below goes on being served afterwards
+            a = time.time()
+            st, body = px.api('POST', '/rules', rules_before, timeout=4)
+            posted = (st, round(time.time() - a, 2))
+            if st != 200:
+                bad.append(f'POST /api/rules with requests pending on the silent upstream: status {st} after {posted[1]} s')
+                break
         a = time.time()
         okc = control_ok()
         worst_ctl = max(worst_ctl, time.time() - a)
@@ -552,7 +565,7 @@ for kind in ('http', 'socks5'):
         time.sleep(0.5)
     if rec is None:
         chk.violation('recovery.resume', f'no-service-after-upstream-returned:{kind}/syn-blackhole', f'{kind}: {K} attempts after the upstream accepts again, still no tunnel', {'connector': kind})
-    samples.append({'blackhole': kind, 'worst_control_s': round(worst_ctl, 3), 'worst_new_request_s': round(worst_new, 3), 'recovered_at_attempt': rec})
+    samples.append({'blackhole': kind, 'rules_posted_during_outage': posted, 'worst_control_s': round(worst_ctl, 3), 'worst_new_request_s': round(worst_new, 3), 'recovered_at_attempt': rec})
     for t in ths:
         t.join(0.1)
     if not control_ok():
@@ -747,6 +760,6 @@ for o in (echo, qecho, cecho):
 if evals < 12 or len(distinct) < 5:
     machinery(f'vacuous: evals={evals} distinct={len(distinct)}')
 cov = {'evaluations': evals, 'distinct_nontrivial': len(distinct), 'transitions': evals, 'traces_validated_against_impl': evals,
-       'rule': f'real binary: connector kind {KINDS} x outage phase {PHASES} x fault {FAULTS} (quick: handshake phase only with restart; thorough adds all pairs of outages); recovery = a probe succeeds within K={K} attempts of {DEADLINE} s after the upstream is reachable again; control tunnel checked during and after every outage; a QUIC upstream away for 34 s (thorough 110 s) with one request per second arriving meanwhile (the connection attempt backs off exponentially); plus, for http and socks5 upstreams, a listener that silently drops connection attempts with 48 requests pending while the control tunnel and new direct requests are timed; plus, for quic / http / socks hops (real second redproxy), one origin behind the healthy hop silently dropping connection attempts for 15 s with 3 requests pending, while 3 established tunnels through the same hop echo every 0.5 s and new ones are opened; plus three outages per connector (direct, http, socks5, lb) with 70 requests failing during each and a recovery probe after each; plus a UDP origin behind the reverse listener that goes away while in use and returns on its port: the same client socket, another known one and a fresh one are served again within K attempts',
+       'rule': f'real binary: connector kind {KINDS} x outage phase {PHASES} x fault {FAULTS} (quick: handshake phase only with restart; during the SYN black-hole with 48 requests pending the rule list is posted back through the API: answered within 4 s; thorough adds all pairs of outages); recovery = a probe succeeds within K={K} attempts of {DEADLINE} s after the upstream is reachable again; control tunnel checked during and after every outage; a QUIC upstream away for 34 s (thorough 110 s) with one request per second arriving meanwhile (the connection attempt backs off exponentially); plus, for http and socks5 upstreams, a listener that silently drops connection attempts with 48 requests pending while the control tunnel and new direct requests are timed; plus, for quic / http / socks hops (real second redproxy), one origin behind the healthy hop silently dropping connection attempts for 15 s with 3 requests pending, while 3 established tunnels through the same hop echo every 0.5 s and new ones are opened; plus three outages per connector (direct, http, socks5, lb) with 70 requests failing during each and a recovery probe after each; plus a UDP origin behind the reverse listener that goes away while in use and returns on its port: the same client socket, another known one and a fresh one are served again within K attempts',
        'schedules': evals, 'K': K, 'deadline_s': DEADLINE, 'schedule_control': 'kernel', 'samples': samples}
 sys.exit(chk.finish('fault_enumeration', cov, ['silent packet loss on the QUIC path with later recovery is out of reach (needs the 3600 s idle timeout)', 'upstreams are Python servers / a second redproxy process killed with SIGKILL'], merge=False))
